@@ -306,6 +306,9 @@ class HistoryMachine(RuleBasedStateMachine):
         self._failed = False
 
     def do(self, step):
+        if time.time() - getattr(self, "_t0", time.time()) > getattr(self, "_budget", 1e9):
+            self.st.skipped_budget += 1
+            return None
         self.steps.append(step)
         try:
             return self.model.apply(step)
